@@ -13,6 +13,7 @@ mod lexref;
 mod prog;
 mod replay;
 mod rx;
+mod sched;
 mod sem;
 mod uni;
 mod unis;
